@@ -27,6 +27,11 @@ def cases(ctx):
         r = rng.random()
         eps2 = N1['eps'] if r < 0.85 else rng.choice(gen.EPSILONS)
         N2 = gen.random_nfa(rng, 4, rng.choice([Sig, Sig, ['a', 'b']]), eps2, prefix=rng.choice(['p', 'r_', 'x']), live=rng.random() < 0.7)
+        if rng.random() < 0.4:      # the operand with generator-like names q0, q1, ... may be either one
+            N1, N2 = dict(N2, eps=N1['eps'], delta=[[q, N1['eps'] if a == N2['eps'] else a, T] for q, a, T in N2['delta']]), \
+                dict(N1, eps=N2['eps'], delta=[[q, N2['eps'] if a == N1['eps'] else a, T] for q, a, T in N1['delta']])
+            if N1['eps'] in N1['Sigma'] or N2['eps'] in N2['Sigma']:
+                continue
         if set(N1['Q']) & set(N2['Q']):
             continue
         if not thorough or ctx.mine(i):
